@@ -82,6 +82,7 @@ enum {
     F_CURSOR_EXHAUSTED,
     F_SUBBUF,
     F_BIG_GROWTH,
+    F_SECURE_SHORT_UNALIGNED,
     F_NFLAGS
 };
 static const char *s_flag_names[F_NFLAGS] = {
@@ -112,6 +113,7 @@ static const char *s_flag_names[F_NFLAGS] = {
     "cursor_read_to_exhaustion",
     "sub_buffer_from_advance_written",
     "dynamic_growth_of_buffer_of_16MiB_or_more",
+    "secure_wipe_of_short_unaligned_view",
 };
 
 /* ------------------------------------------------------------------ state */
@@ -494,7 +496,7 @@ static struct {
     size_t off, n;
     const char *op;
 } s_sec;
-static uint64_t s_n_sec, s_n_sec_nonzero;
+static uint64_t s_n_sec, s_n_sec_nonzero, s_n_secure_views;
 
 static void release_hook(void *payload, size_t size, void *user) {
     (void)user;
@@ -3246,6 +3248,75 @@ static void run_case(uint64_t case_idx) {
     }
 }
 
+/* ------------------------------------------------------------------ secure wipes of short interior views
+ * aws_secure_zero and the calls built on it (aws_byte_buf_secure_zero, reset(buf, true), clean_up_secure) are given views of
+ * 0..24 bytes at every address alignment inside a 64-byte region whose last byte is followed by an inaccessible page:
+ * exactly the view's bytes become zero, every other byte of the region keeps its value. */
+#include <sys/mman.h>
+static void check_secure_views(struct mon_rng *r) {
+    static uint8_t *page;
+    if (!page) {
+        page = mmap(NULL, 8192, PROT_READ | PROT_WRITE, MAP_PRIVATE | MAP_ANONYMOUS, -1, 0);
+        if (page == MAP_FAILED || mprotect(page + 4096, 4096, PROT_NONE)) {
+            page = NULL;
+            mon_count("secure_view_checks_skipped_no_mmap", 1);
+            return;
+        }
+    }
+    uint8_t *reg = page + 4096 - 64;
+    for (int round = 0; round < 24; ++round) {
+        uint8_t before[64];
+        for (int i = 0; i < 64; ++i) {
+            reg[i] = before[i] = (uint8_t)(1 + mon_below(r, 255)); /* never zero */
+        }
+        size_t n = mon_chance(r, 3, 4) ? (size_t)mon_below(r, 8) : (size_t)mon_below(r, 25);
+        size_t o = mon_chance(r, 1, 3) ? 64 - n - (size_t)mon_below(r, 2 < 64 - n ? 2 : 1) : (size_t)mon_below(r, 64 - n + 1);
+        unsigned how = (unsigned)mon_below(r, 5);
+        const char *what;
+        struct aws_byte_buf v = aws_byte_buf_from_empty_array(reg + o, n);
+        if (how == 0) {
+            what = "aws_secure_zero";
+            aws_secure_zero(reg + o, n);
+        } else if (how == 1) {
+            what = "aws_byte_buf_secure_zero";
+            aws_byte_buf_secure_zero(&v);
+        } else if (how == 2) {
+            what = "aws_byte_buf_reset(buf, true)";
+            v.len = n ? (size_t)mon_below(r, n + 1) : 0;
+            aws_byte_buf_reset(&v, true);
+        } else if (how == 3) {
+            what = "aws_byte_buf_clean_up_secure";
+            aws_byte_buf_clean_up_secure(&v);
+        } else {
+            /* a sub-buffer carved out of a parent by aws_byte_buf_advance */
+            what = "aws_byte_buf_secure_zero of a sub-buffer from aws_byte_buf_advance";
+            struct aws_byte_buf parent = aws_byte_buf_from_empty_array(reg, 64), skip, sub;
+            AWS_ZERO_STRUCT(skip);
+            AWS_ZERO_STRUCT(sub);
+            if (!aws_byte_buf_advance(&parent, &skip, o) || !aws_byte_buf_advance(&parent, &sub, n) || sub.buffer != (n ? reg + o : sub.buffer)) {
+                if (o || n) {
+                    viol("C01:secure-view", "aws_byte_buf_advance(%zu) then (%zu) on an empty 64-byte buffer failed or returned another place", o, n);
+                }
+                continue;
+            }
+            aws_byte_buf_secure_zero(&sub);
+        }
+        ++s_n_secure_views;
+        if (n && n < 8 && ((uintptr_t)(reg + o) & 7)) {
+            mon_flag(F_SECURE_SHORT_UNALIGNED);
+        }
+        for (size_t i = 0; i < 64; ++i) {
+            bool inside = i >= o && i < o + n;
+            if (inside ? reg[i] != 0 : reg[i] != before[i]) {
+                viol(inside ? "C01:secure-zero-incomplete" : "C01:secure-zero-outside-view",
+                     "%s on a view of %zu bytes at offset %zu (address %% 8 = %u) of a 64-byte region: byte %zu is 0x%02x, %s", what, n, o,
+                     (unsigned)((uintptr_t)(reg + o) & 7), i, reg[i], inside ? "expected 0" : "was not part of the view and changed");
+                break;
+            }
+        }
+    }
+}
+
 int main(int argc, char **argv) {
     mon_init(argc, argv, "C01");
     aws_common_library_init(aws_default_allocator());
@@ -3268,12 +3339,16 @@ int main(int argc, char **argv) {
         if (c % 16 == 0) {
             check_pri_macros(&mon_case_rng);
         }
+        if (c % 16 == 8) {
+            check_secure_views(&mon_case_rng);
+        }
         mon_case_end(mon_flag_count() >= 3);
     }
     files_remove();
     mon_count("calls", s_n_ops);
     mon_count("failed_calls_compared_with_snapshot", s_n_failchecks);
     mon_count("secure_releases_inspected", s_n_sec);
+    mon_count("secure_wipes_of_interior_views", s_n_secure_views);
     mon_count("secure_releases_nonzero_before_call", s_n_sec_nonzero);
     mon_count("procfs_unavailable", s_n_proc_unavailable);
     mon_count("failed_advance_changed_forged_cursor", s_n_half_clobber);
